@@ -317,3 +317,52 @@ def frontier(run_one, bound, depth_points=2):
                 rec(ch[:i] + [alt], left - 1)
     rec([], depth_points)
     return out
+
+
+class coop_locks:
+    """Context manager: every lock psutil owns or creates while active is a cooperative lock known to
+    the scheduler (a real lock held by a de-scheduled thread would hang the baton protocol).
+    * module attribute `threading` of psutil and psutil._common -> shim whose Lock/RLock build CoopLocks
+    * existing `_thread.lock` / RLock instances in those modules' globals and in psutil._common._wn
+      (including dict values, e.g. a defaultdict of locks) are swapped for the duration."""
+
+    def __init__(self, sched, psutil):
+        self.s, self.ps = sched, psutil
+        self.saved = []
+
+    def __enter__(self):
+        import threading as T
+        import types
+        s = self.s
+        lock_types = (type(T.Lock()), type(T.RLock()))
+
+        class _DD(dict):
+            def __missing__(d, k):
+                d[k] = s.lock(False, "lock[%r]" % (k,))
+                return d[k]
+        shim = types.SimpleNamespace(**{k: getattr(T, k) for k in dir(T) if not k.startswith("__")})
+        shim.Lock = lambda: s.lock(False, "Lock")
+        shim.RLock = lambda: s.lock(True, "RLock")
+        mods = [self.ps, self.ps._common]
+        for m in mods:
+            if "threading" in m.__dict__:
+                self.saved.append((m.__dict__, "threading", m.__dict__["threading"]))
+                m.__dict__["threading"] = shim
+        holders = [m.__dict__ for m in mods] + [self.ps._common._wn.__dict__]
+        for h in holders:
+            for k, v in list(h.items()):
+                if isinstance(v, lock_types):
+                    self.saved.append((h, k, v))
+                    h[k] = s.lock(isinstance(v, lock_types[1]), k)
+                elif isinstance(v, dict) and v and all(isinstance(x, lock_types) for x in v.values()):
+                    self.saved.append((h, k, v))
+                    h[k] = _DD()
+                elif type(v).__name__ == "defaultdict" and getattr(v, "default_factory", None) in (T.Lock, T.RLock):
+                    self.saved.append((h, k, v))
+                    h[k] = _DD()
+        return self
+
+    def __exit__(self, *a):
+        for h, k, v in reversed(self.saved):
+            h[k] = v
+        self.saved = []
